@@ -215,7 +215,13 @@ func (dp *DPoVP) saveNewBlock(block *types.Block) error {
 		dp.onCurrentChanged(oldCurrent, dp.CurrentBlock())
 	} else {
 		// 该块插入到了其他分支上，把该block中的交易push到本分支状态的交易池中
-		dp.txPool.AddTxs(block.Txs)
+		// except the ones which the current branch contains already, or we would mine them a second time
+		currentHash := dp.CurrentBlock().Hash()
+		for _, tx := range block.Txs {
+			if !dp.txGuard.ExistTx(currentHash, tx) {
+				dp.txPool.AddTx(tx)
+			}
+		}
 	}
 
 	// 如果是出现了新的稳定块
